@@ -415,6 +415,8 @@ class Acl(AceGroup):
                 old_group = old_groups.get(group_name)
                 aceg_o = AceGroup(
                     platform=self._platform,
+                    version=str(self.version),
+                    max_ncwb=self.max_ncwb,
                     type=self._type,
                     group_by=group_by,
                     protocol_nr=self._protocol_nr,
